@@ -7,6 +7,19 @@
   below `n`); the tableau is an `M α` of shape `n × (2n+2)` with the column
   order of the code: `w` (0..n-1), `z` (n..2n-1), `z0` (2n), right-hand side
   (2n+1); the basis is the function `row ↦ basic variable`.
+
+  code lines → definitions
+    126-130  trivial exit                       `trivialExit`, first branch of `lcpLemke`
+    132-141, 196-258  tableau / basis set-up    `initTableau`, `initBasis` (d=None → caller passes ones)
+    143-154  hand-written first ratio test      `firstStep`, `firstPivotRow` (repaired loop, `ratio_min = ratio`)
+    156-157  first pivot, entering column       `firstPivot`
+    162-185  main loop, ray / success / limit   `lemkeLoop` (fuel = max_iter - 1), `complement`, `setBasis`
+    187, 261-291  read-out                      `getSolution`
+    148/150  ZeroDivisionError (Numba python error model, `d[i] == 0`)   `divByZero`, `lcpLemkeE`
+  parameters: `tolPiv`, `tolDiff` (= piv_options.tol_piv / tol_ratio_diff), `maxIter`.
+  not part of the algorithm: `lemkeTies`/`firstTies`/`lcpTies` (degeneracy counters used by the
+  harness), `firstStepBuggy`/`firstPivotRowBuggy`/`lemkeRunBuggy` (the pre-repair first ratio
+  test, kept for the witness theorems).
 -/
 import QEModel.Base
 import QEModel.Pivot
@@ -96,6 +109,14 @@ def lemkeRun (n : Nat) (Mm : Nat → Nat → α) (q d : Nat → α) (maxIter : N
   let fp := firstPivot n Mm q d tolDiff
   lemkeLoop n tolPiv tolDiff (maxIter - 1) fp.1 fp.2.1 fp.2.2 1
 
+/-- the run as it was before the repair of the first ratio test (`firstPivotRowBuggy`); kept
+    only for the witness theorem `first_pivot_buggy_negative_z_witness` -/
+def lemkeRunBuggy (n : Nat) (Mm : Nat → Nat → α) (q d : Nat → α) (maxIter : Nat) (tolPiv tolDiff : α) :
+    LoopOut α :=
+  let r := firstPivotRowBuggy n q d tolDiff
+  lemkeLoop n tolPiv tolDiff (maxIter - 1) (pivot (initTableau n Mm q d) (2 * n) r)
+    (setBasis initBasis r (2 * n)) (r + n) 1
+
 /-- `(q >= 0).all()` -/
 def trivialExit (n : Nat) (q : Nat → α) : Bool := (List.range n).all fun i => decide (0 ≤ q i)
 
@@ -114,6 +135,18 @@ def lcpLemke (n : Nat) (Mm : Nat → Nat → α) (q d : Nat → α) (maxIter : N
   else
     let o := lemkeRun n Mm q d maxIter tolPiv tolDiff
     ⟨getSolution n o.T o.basis, o.status == 0, o.status, o.numIter, some o.basis⟩
+
+/-- Numba's default error model: `q[i] / d[i]` (lcp_lemke.py 148, 150) raises
+    `ZeroDivisionError` when `d[i] == 0`; the loop evaluates it for every `i < n`, after the
+    trivial-exit test. No other division of the run can have a zero divisor (pivot elements are
+    `> tol_piv ≥ 0`, the first one is `-d[pivrow]`). -/
+def divByZero (n : Nat) (q d : Nat → α) : Bool :=
+  !trivialExit n q && (List.range n).any fun i => d i == 0
+
+/-- `lcp_lemke` including its exception path: `none` = `ZeroDivisionError` -/
+def lcpLemkeE (n : Nat) (Mm : Nat → Nat → α) (q d : Nat → α) (maxIter : Nat) (tolPiv tolDiff : α) :
+    Option (LCPResult α) :=
+  if divByZero n q d then none else some (lcpLemke n Mm q d maxIter tolPiv tolDiff)
 
 /-! ### degeneracy counters (driver-side instrumentation, not part of the algorithm) -/
 
@@ -175,8 +208,10 @@ def handle (toks : List String) : String :=
           kvRat r "tolpiv", kvRat r "toldiff" with
     | some n, some Mm, some q, some d, some mi, some tp, some td =>
       if wellShaped n Mm q d then
-        showResult showRat n (lcpLemke n (fnOfMat Mm) (fnOfList q) (fnOfList d) mi tp td) ++
-        " ties=" ++ toString (lcpTies n (fnOfMat Mm) (fnOfList q) (fnOfList d) mi tp td)
+        match lcpLemkeE n (fnOfMat Mm) (fnOfList q) (fnOfList d) mi tp td with
+        | none => "ERR:ZeroDivisionError"
+        | some res => showResult showRat n res ++
+            " ties=" ++ toString (lcpTies n (fnOfMat Mm) (fnOfList q) (fnOfList d) mi tp td)
       else "bad-op"
     | _, _, _, _, _, _, _ => "bad-op"
   | "lemkef" :: r =>
@@ -185,9 +220,21 @@ def handle (toks : List String) : String :=
           (kv r "tolpiv").bind parseFloat?, (kv r "toldiff").bind parseFloat? with
     | some n, some Mm, some q, some d, some mi, some tp, some td =>
       if wellShaped n Mm q d then
-        showResult showFloatBits n (lcpLemke n (fnOfMat Mm) (fnOfList q) (fnOfList d) mi tp td)
+        match lcpLemkeE n (fnOfMat Mm) (fnOfList q) (fnOfList d) mi tp td with
+        | none => "ERR:ZeroDivisionError"
+        | some res => showResult showFloatBits n res
       else "bad-op"
     | _, _, _, _, _, _, _ => "bad-op"
+  | "lemkebuggy" :: r =>
+    -- pre-repair run (documentation only; not compared with the code)
+    match kvNat r "n", kvRatMat r "M", kvRats r "q", kvRats r "d", kvNat r "maxiter" with
+    | some n, some Mm, some q, some d, some mi =>
+      if wellShaped n Mm q d then
+        let o := lemkeRunBuggy n (fnOfMat Mm) (fnOfList q) (fnOfList d) mi (0 : Rat) 0
+        "status=" ++ toString o.status ++ " z=" ++
+          showList showRat ((List.range n).map (getSolution n o.T o.basis))
+      else "bad-op"
+    | _, _, _, _, _ => "bad-op"
   | "firstrow" :: r =>
     match kvNat r "n", kvRats r "q", kvRats r "d", kvRat r "toldiff" with
     | some n, some q, some d, some td =>
